@@ -308,3 +308,68 @@ Qed.
 (* of_list / vis_of round trip, so that later calls can be stated on the list form *)
 Lemma of_list_vis : forall v f, of_list (vis_of v) f = v f.
 Proof. intros v f. destruct f; reflexivity. Qed.
+
+(* ---------------------------------------------------------------- histories of calls *)
+(* A history is a list of calls, each started from the visible state the previous one left
+   (locals, oracle and fault are per call).  `prune` drops the calls that fail.  If every call
+   of the history is atomic, the history and its pruned version leave the same visible state:
+   the linker on which the failed calls were never made. *)
+Definition call := (prog * list (nat * bool) * option (nat * nat))%type.
+Definition call_prog (c : call) : prog := fst (fst c).
+Definition call_cfg (l : list Z) (c : call) : cfg :=
+  run_op (fst (fst c)) (snd (fst c)) (snd c) (of_list l).
+Definition lstep (l : list Z) (c : call) : list Z := visible (call_cfg l c).
+Definition failedb (l : list Z) (c : call) : bool :=
+  match failed (call_cfg l c) with Some _ => true | None => false end.
+Definition hist (l : list Z) (cs : list call) : list Z := fold_left lstep cs l.
+Fixpoint prune (l : list Z) (cs : list call) : list call :=
+  match cs with
+  | [] => []
+  | c :: cs' => if failedb l c then prune l cs' else c :: prune (lstep l c) cs'
+  end.
+
+Lemma vis_of_list_vis : forall v, vis_of (of_list (vis_of v)) = vis_of v.
+Proof. intro v. unfold vis_of at 1 3. apply map_ext. intro f. apply of_list_vis. Qed.
+
+Lemma failed_atomic_lstep : forall v c,
+  atomicb (call_prog c) = true -> failedb (vis_of v) c = true -> lstep (vis_of v) c = vis_of v.
+Proof.
+  intros v c Ha Hf. unfold lstep, call_cfg. unfold failedb, call_cfg in Hf.
+  rewrite (atomicb_sound _ Ha).
+  - apply vis_of_list_vis.
+  - intro E. unfold call_prog in E. rewrite E in Hf. discriminate Hf.
+Qed.
+
+Lemma hist_prune : forall cs v,
+  (forall c, In c cs -> atomicb (call_prog c) = true) ->
+  hist (vis_of v) cs = hist (vis_of v) (prune (vis_of v) cs).
+Proof.
+  induction cs as [|c cs IH]; intros v Hall; [reflexivity|].
+  cbn [prune]. destruct (failedb (vis_of v) c) eqn:Hf.
+  - unfold hist at 1. cbn [fold_left].
+    rewrite (failed_atomic_lstep v c (Hall c (or_introl eq_refl)) Hf).
+    apply IH. intros c' Hc'. apply Hall. right. exact Hc'.
+  - unfold hist. cbn [fold_left].
+    change (lstep (vis_of v) c) with (vis_of (cur (call_cfg (vis_of v) c))).
+    apply IH. intros c' Hc'. apply Hall. right. exact Hc'.
+Qed.
+
+(* no call of the pruned history fails *)
+Lemma prune_no_failure : forall cs v,
+  forallb (fun b => negb b)
+    (snd (fold_left (fun acc c => (lstep (fst acc) c, snd acc ++ [failedb (fst acc) c]))
+                    (prune (vis_of v) cs) (vis_of v, []))) = true.
+Proof.
+  intros cs v.
+  assert (G : forall cs v acc, forallb (fun b => negb b) acc = true ->
+    forallb (fun b => negb b)
+      (snd (fold_left (fun acc c => (lstep (fst acc) c, snd acc ++ [failedb (fst acc) c]))
+                      (prune (vis_of v) cs) (vis_of v, acc))) = true).
+  { clear. induction cs as [|c cs IH]; intros v acc Hacc; [exact Hacc|].
+    cbn [prune]. destruct (failedb (vis_of v) c) eqn:Hf.
+    - apply IH. exact Hacc.
+    - cbn [fold_left fst snd].
+      change (lstep (vis_of v) c) with (vis_of (cur (call_cfg (vis_of v) c))).
+      apply IH. rewrite forallb_app. rewrite Hacc, Hf. reflexivity. }
+  apply G. reflexivity.
+Qed.
